@@ -12,4 +12,13 @@ def KeysOK (a : Annotation) : Prop :=
 /-- total of an additive per-residue weight (e.g. residue mass + mass of its modifications) -/
 def weight (w : Char × List Mod → Rat) (l : List (Char × List Mod)) : Rat := (l.map w).sum
 
+/-- the general path of `slice` as one expression -/
+def sliceGeneral (a : Annotation) (start stop : Int) : Annotation :=
+  { a with
+    seq := pySlice a.seq start stop
+    internal := a.internal.map (·.filterMap (sliceEntry start stop))
+    intervals := noneIfEmpty (a.intervals.map (·.filterMap (sliceInterval start stop)))
+    nterm := if start > 0 then none else a.nterm
+    cterm := if stop < (a.seq.length : Int) then none else a.cterm }
+
 end Pept.Reorder
